@@ -996,3 +996,20 @@ B('k18_getattr_resources_wrong_key_tested', ['C18'], 'R18.a', (META, "        re
     return ret
 '''))
 T('k18e_view_endpoint_repr', ['C18'], (META, "        r_info['endpoint'] = get_endpoint_info(r)\n", "        r_info['endpoint'] = get_endpoint_info(r)\n        r_info['endpoint_repr'] = _trunc(repr(r.endpoint))\n"))
+B('k18e_dataclass_repr_field', ['C18'], 'R18.e', (A, "class DispatchState(object):", '''@dataclass
+class AppSummary:
+    name: str
+    app_resources: dict
+
+
+class DispatchState(object):'''), (A, "import attr\n", "import attr\nfrom dataclasses import dataclass\n"))
+T('k18e_dataclass_field_not_printed', ['C18'], (A, "class DispatchState(object):", '''@dataclass
+class AppSummary:
+    name: str
+    resource_names: list
+    app_resources: dict = field(default_factory=dict, repr=False)
+
+
+class DispatchState(object):'''), (A, "import attr\n", "import attr\nfrom dataclasses import dataclass, field\n"))
+T('k18e_repr_reads_group_key', ['C18'], (META, "    def get_general_items(self):\n        \"Returns list of 2-tuples to appear in the general section table\"\n",
+                                         "    def __repr__(self):\n        return '<%s group_key=%r title=%r>' % (self.__class__.__name__, self.group_key, self.title)\n\n    def get_general_items(self):\n        \"Returns list of 2-tuples to appear in the general section table\"\n"))
